@@ -103,6 +103,8 @@ type WriterScript struct {
 	Kind   string `json:"kind"`    // "string" (has WriteString) | "plain"
 	FailAt int    `json:"fail_at"` // 1-based index of the write that fails (0 = none)
 	Mode   string `json:"mode"`    // "transient" | "permanent"
+	// the failing write accepts the first half of its bytes before reporting the error (io.Writer allows n > 0 with err != nil)
+	Partial bool `json:"partial,omitempty"`
 }
 
 type faultWriter struct {
@@ -120,6 +122,10 @@ func (w *faultWriter) write(p []byte) (int, error) {
 	}
 	if w.s.FailAt != 0 && (w.calls == w.s.FailAt || (w.s.Mode == "permanent" && w.calls > w.s.FailAt)) {
 		w.failed = true
+		if w.s.Partial && len(p) >= 2 {
+			n, _ := w.accepted.Write(p[:len(p)/2])
+			return n, errInjectedWrite
+		}
 		return 0, errInjectedWrite
 	}
 	return w.accepted.Write(p)
@@ -315,10 +321,17 @@ func checkWriteFaults(res *RunResult, recipe Recipe, model *AP, real *bm.Policy,
 	n := ref.WriterCalls
 	for k := 1; k <= n; k++ {
 		for _, mode := range []string{"transient", "permanent"} {
-			for _, kind := range []string{"string", "plain"} {
-				r := RunIO(real, "SanitizeReaderToWriter", input, ReaderScript{FailAt: -1}, WriterScript{Kind: kind, FailAt: k, Mode: mode})
+			for _, kp := range []struct {
+				kind    string
+				partial bool
+			}{{"string", false}, {"plain", false}, {"string", true}, {"plain", true}} {
+				kind := kp.kind
+				r := RunIO(real, "SanitizeReaderToWriter", input, ReaderScript{FailAt: -1}, WriterScript{Kind: kind, FailAt: k, Mode: mode, Partial: kp.partial})
 				res.Execs++
 				what := fmt.Sprintf("write %d of %d fails (%s, %s writer) on %q", k, n, mode, kind, input)
+				if kp.partial {
+					what = fmt.Sprintf("write %d of %d accepts half of its bytes and fails (%s, %s writer) on %q", k, n, mode, kind, input)
+				}
 				if r.Err == nil {
 					res.addViolation(Finding{"C16", "write-error-lost", what + ": SanitizeReaderToWriter returned nil"}, x, seen)
 				}
